@@ -16,6 +16,7 @@ type Config struct {
 	Prop     string // property whose monitors are reported
 	Restarts bool
 	CheckTx  bool
+	Queries  bool
 }
 
 // RunHistory generates and executes one history on a fresh primary node.
@@ -39,6 +40,9 @@ func RunHistory(seed uint64, r *rng.R, work string, opt apphist.Options, cfg Con
 			if cfg.CheckTx && r.Chance(30) {
 				s.Check(bz)
 			}
+			if cfg.Queries && r.Chance(40) {
+				s.RandomQuery()
+			}
 			o, _ := s.Deliver(bz)
 			s.After(bz, o)
 			if r.Chance(6) { // replay the same bytes at once
@@ -54,6 +58,11 @@ func RunHistory(seed uint64, r *rng.R, work string, opt apphist.Options, cfg Con
 		}
 		if !s.Commit() {
 			break
+		}
+		if cfg.Queries {
+			for q := r.Intn(4); q > 0; q-- {
+				s.RandomQuery()
+			}
 		}
 		if cfg.Restarts && r.Chance(15) {
 			if err := s.Restart(); err != nil {
